@@ -1096,6 +1096,30 @@ fn c10(_tier: &str, seed: u64) -> Report {
     c10_min::<3>(&mut rep, &mut rng);
     c10_min::<8>(&mut rep, &mut rng);
     c10_min::<31>(&mut rep, &mut rng);
+    c10_min::<32>(&mut rep, &mut rng);
+    // pairs of k-mers at full storage width and around the top bit, every storage type
+    let edge: [u128; 10] = [0, 1, 2, (1 << 62) - 1, 1 << 62, (1 << 63) - 1, 1 << 63, (1 << 63) + 1, u64::MAX as u128 - 1, u64::MAX as u128];
+    let mut vals: Vec<u128> = edge.to_vec();
+    for _ in 0..40 {
+        vals.push(rng.next() as u128);
+    }
+    for &a in &vals {
+        for &b in &vals {
+            rep.case(|| format!("order {:#x} vs {:#x}", a, b));
+            let (ka, kb): (Kmer<Dna, 32>, Kmer<Dna, 32>) = (Kmer::from(a as usize), Kmer::from(b as usize));
+            let want = (a as usize).cmp(&(b as usize));
+            rep.expect(ka.cmp(&kb) == want && ka.partial_cmp(&kb) == Some(want) && (ka < kb) == (want == std::cmp::Ordering::Less) && (ka == kb) == (a == b),
+                "C10 full-width k-mers (K*BITS = 64) order by the packed integer, consistently with equality", || format!("Kmer<Dna,32> {:#x} vs {:#x}: {:?}", a, b, ka.cmp(&kb)));
+            let (ua, ub): (Kmer<Dna, 32, u64>, Kmer<Dna, 32, u64>) = (Kmer::from(a as u64), Kmer::from(b as u64));
+            rep.expect(ua.cmp(&ub) == (a as u64).cmp(&(b as u64)), "C10 u64-backed full-width k-mers order by the packed integer", || format!("{:#x} vs {:#x}", a, b));
+            let (wa, wb) = (a | (a << 64), b | (b << 64));
+            let xa: Kmer<Dna, 64, u128> = Kmer { _p: core::marker::PhantomData, bs: wa };
+            let xb: Kmer<Dna, 64, u128> = Kmer { _p: core::marker::PhantomData, bs: wb };
+            rep.expect(xa.cmp(&xb) == wa.cmp(&wb), "C10 u128-backed full-width k-mers order by the packed integer", || format!("{:#x} vs {:#x}", wa, wb));
+            let (ta, tb): (Kmer<text::Dna, 8>, Kmer<text::Dna, 8>) = (Kmer::from(a as usize), Kmer::from(b as usize));
+            rep.expect(ta.cmp(&tb) == (a as usize).cmp(&(b as usize)), "C10 8-bit k-mers at full width order by the packed integer", || format!("{:#x} vs {:#x}", a, b));
+        }
+    }
     rep
 }
 
